@@ -281,74 +281,114 @@ def c10a_clone_from_clears(prog):
         r.viol('C10a', 'missing', '-', 'Archetypes::clone_from not found')
         return r
     f = fs[0]
-    body = f.body
     r.inst('Archetypes::clone_from')
-    cd = [(b, t) for b, t in body.calls(lambda c: c['name'] == 'clear_detached')]
-    if len(cd) != 1:
-        r.viol('C10a', 'no-clear-pass', f.loc(), 'destination archetypes that the source lacks are not cleared: their entities survive the clone_from')
+    E = pathsem.analyse(prog, f, max_paths=30000)
+    rets = [p for p in E.paths if p.ended == 'return']
+    done = set()
+
+    def once(k, ln, msg):
+        if k not in done:
+            done.add(k)
+            r.viol('C10a', k, f.loc(ln), msg)
+    if E.truncated or not rets:
+        once('not-analysable', None, 'path enumeration cut off')
         return r
-    cb, ct = cd[0]
-    if cb not in body.reachable_after(cb):
-        r.viol('C10a', 'clear-not-in-loop', f.loc(ct['ln']), 'clear_detached is not applied in a loop over the destination archetypes')
-    # loop source: self.iter_mut()
-    its = [(b, t) for b, t in body.calls(lambda c: c['name'] in ('iter_mut', 'iter') and 'Archetypes' in c['path'])]
-    loop_src = [(b, t) for b, t in its if (receiver_name(prog, body, t['args'][0]) or '').startswith('self') and cb in body.reachable_after(b)
-                and not any(cb2 in body.reachable_after(b) and False for cb2 in [])]
-    loop_src = [(b, t) for b, t in loop_src if body.dominates(b, cb)]
-    # choose the closest dominating iterator creation
-    if not loop_src:
-        r.viol('C10a', 'clear-loop-source', f.loc(ct['ln']), 'the clearing pass does not iterate the destination\'s own archetypes')
-    else:
-        lb, lt = loop_src[-1]
-        if not body.must_pass(0, [lb], body.return_blocks()):
-            r.viol('C10a', 'clear-pass-skippable', f.loc(lt['ln']),
-                   'a path through clone_from returns without running the pass that clears destination-only archetypes: their rows (and identifiers) survive and the world holds entities the source never had')
-    # guarded by !contains(images)
-    cons = [(b, t) for b, t in body.calls(lambda c: c['name'] == 'contains' and 'HashSet' in c['path'])]
-    ok = False
-    for b, t in cons:
-        cl = t['dest']['l']
-        der = derived(body, {cl})
-        for sb in range(body.n):
-            st = body.term(sb)
-            if st['k'] == 'switch' and op_local(st['discr']) in der and 0 in st['values']:
-                neg = is_negated(body, op_local(st['discr']), cl)
-                not_contained_edge = st['otherwise'] if neg else st['targets'][st['values'].index(0)]
-                if body.edge_dominates((sb, not_contained_edge), cb):
-                    ok = True
-        # the set is built from identifier_map.values()
-        sl = normalize_access(access_of_place(body, op_place(t['args'][0]))).root
-        vals = [(vb, vt) for vb, vt in body.calls(lambda c: c['name'] == 'values' and 'HashMap' in c['path'])]
-        if not any(sl in derived(body, {vt['dest']['l']}) for vb, vt in vals):
-            r.viol('C10a', 'image-set-provenance', f.loc(t['ln']), 'the set of cloned-into archetypes is not built from identifier_map.values()')
-    if not ok:
-        r.viol('C10a', 'clear-guard', f.loc(ct['ln']), 'clear_detached must be applied exactly to archetypes that are NOT an image of a source archetype')
-    # source loop: clone_from into existing / clone + insert; identifier_map.insert on both branches
+    S = pathsem.strip_refs
+    body = f.body
+    p_self = ('p', 1, body.local_name(1) or 'self')
+    p_src = ('p', 2, body.local_name(2) or 'source')
+
+    def yielded(p, root_name, owner):
+        """elements produced on path p by iterating <owner>.<root_name>()"""
+        out = []
+        for e in p.calls(lambda e: e['path'] == 'core::iter::Iterator::next'):
+            pass
+        for a_, v in p.conds:
+            if isinstance(a_, tuple) and a_[0] == 'next' and v == 1:
+                root, kinds = pathsem.iter_chain(a_[1])
+                if S(root) == owner and root_name in kinds:
+                    out.append(('elem', a_[1], a_[2]))
+        return out
+
+    def ident_of(p, t):
+        """if t is the result of `<archetype>.identifier()` -> the archetype value it was called on"""
+        for e in p.calls(lambda e: e['name'] == 'identifier' and e.get('ret') == t):
+            return S(e['vals'][0])
+        return None
+    n_src = n_dst = 0
+    for p in E.paths:
+        if p.ended not in ('return', 'cutoff'):
+            continue
+        idmap = p.ret if p.ended == 'return' else None
+        # ---- source loop
+        for s_el in yielded(p, 'iter', p_src):
+            n_src += 1
+            cfs = p.calls(lambda e: e['name'] == 'clone_from' and len(e['vals']) == 2 and S(e['vals'][1]) == s_el)
+            cls = p.calls(lambda e: e['name'] == 'clone' and e['f'].get('trait') == 'core::clone::Clone' and S(e['vals'][0]) == s_el)
+            if len(cfs) + len(cls) == 0:
+                # the path may have been cut off inside this iteration
+                if p.ended == 'return':
+                    once('source-archetype-skipped', None, 'an iteration over the source archetypes can finish without cloning that archetype into the destination (neither clone_from nor clone+insert): identifier_map stays incomplete and lookups later point into the source world')
+                continue
+            if len(cfs) + len(cls) > 1:
+                once('source-loop-shape', (cfs + cls)[0]['ln'], 'a source archetype is cloned more than once on a path')
+                continue
+            if cfs:
+                dest = S(cfs[0]['vals'][0])
+                # dest must be the table found for the source's identifier
+                ok = isinstance(dest, tuple) and pathsem.mentions(dest, lambda t: t[0] == 'call' and t[1].endswith('::get_mut_with_foreign') and ident_of(p, S(t[2][1])) == s_el)
+                if not ok:
+                    once('clone-target', cfs[0]['ln'], 'a source archetype is cloned into a table that was not looked up by the source archetype\'s identifier')
+                at = cfs[0]['i']
+            else:
+                dest = cls[0]['ret']
+                ins = p.calls(lambda e: e['name'] == 'insert' and e['path'].startswith('archetypes::Archetypes') and S(e['vals'][1]) == dest)
+                if not ins:
+                    if p.ended == 'return':
+                        once('clone-not-inserted', cls[0]['ln'], 'a freshly cloned archetype is not inserted into the destination')
+                    continue
+                miss = p.calls(lambda e: e['name'] == 'get_mut_with_foreign' and e['i'] < cls[0]['i'] and ident_of(p, S(e['vals'][1])) == s_el and p.lookup(('discr', e['ret'])) == 0)
+                if not miss:
+                    once('clone-without-lookup', cls[0]['ln'], 'a source archetype is cloned into a new table without first finding that the destination has no table for its identifier')
+                at = cls[0]['i']
+            recs = [e for e in p.calls(lambda e: e['name'] == 'insert' and 'HashMap' in e['path'] and len(e['args']) >= 3)
+                    if ident_of(p, S(e['vals'][1])) == s_el and ident_of(p, S(e['vals'][2])) in (dest, S(dest))]
+            if not recs and p.ended == 'return':
+                once('identifier-map-incomplete', (cfs + cls)[0]['ln'], 'a cloned archetype is not recorded in identifier_map: slots pointing at it cannot be remapped')
+            for e in recs:
+                if idmap is not None and S(e['vals'][0]) != idmap:
+                    once('identifier-map-incomplete', e['ln'], 'the source/destination pair is recorded in a map that is not the one returned')
+        if p.ended != 'return':
+            continue
+        # ---- clear pass
+        nexts = [a_ for a_, v in p.conds if isinstance(a_, tuple) and a_[0] == 'next' and
+                 (lambda rk: S(rk[0]) == p_self and 'iter_mut' in rk[1])(pathsem.iter_chain(a_[1]))]
+        if not nexts:
+            once('clear-pass-skippable', None,
+                 'a path through clone_from returns without running the pass that clears destination-only archetypes: their rows (and identifiers) survive and the world holds entities the source never had')
+        for d_el in yielded(p, 'iter_mut', p_self):
+            n_dst += 1
+            cons = [e for e in p.calls(lambda e: e['name'] == 'contains' and 'HashSet' in e['path']) if ident_of(p, S(e['vals'][1])) == d_el]
+            cds = p.calls(lambda e: e['name'] == 'clear_detached' and S(e['vals'][0]) == d_el)
+            if not cons:
+                once('clear-guard', None, 'clear_detached must be applied exactly to archetypes that are NOT an image of a source archetype (no membership test found)')
+                continue
+            c = cons[0]
+            tv = p.lookup(c['ret'])
+            if tv is False and not cds:
+                once('no-clear-pass', c['ln'], 'destination archetypes that the source lacks are not cleared: their entities survive the clone_from')
+            if tv is True and cds:
+                once('clear-guard', cds[0]['ln'], 'clear_detached must be applied exactly to archetypes that are NOT an image of a source archetype')
+            if tv is None:
+                once('clear-guard', c['ln'], 'the membership test does not decide whether the archetype is cleared')
+            # provenance of the set: collected from identifier_map.values()
+            st_ = S(c['vals'][0])
+            vals = [e for e in p.calls(lambda e: e['name'] == 'values' and 'HashMap' in e['path']) if pathsem.mentions(st_, lambda t: t[0] == 'it' and t[1] == 'values') or pathsem.mentions(st_, lambda t: t == e.get('ret'))]
+            if not any(S(e['vals'][0]) == idmap for e in vals):
+                once('image-set-provenance', c['ln'], 'the set of cloned-into archetypes is not built from identifier_map.values()')
     r.inst('Archetypes::clone_from source loop')
-    cf = [(b, t) for b, t in body.calls(lambda c: c['name'] == 'clone_from' and 'Archetype' in (c.get('res') or c)['path'])]
-    cl_ = [(b, t) for b, t in body.calls(lambda c: c['name'] == 'clone' and c.get('trait') == 'core::clone::Clone' and 'Archetype' in (c.get('res') or c)['path'])]
-    ins = [(b, t) for b, t in body.calls(lambda c: c['name'] == 'insert' and c['path'].startswith('archetypes::Archetypes'))]
-    mins = [(b, t) for b, t in body.calls(lambda c: c['name'] == 'insert' and 'HashMap' in c['path']) if (receiver_name(prog, body, t['args'][0]) or '').endswith('identifier_map')]
-    # every iteration of the source loop clones the archetype one way or the other
-    src_its = [(b, t) for b, t in its if (receiver_name(prog, body, t['args'][0]) or '').startswith('source')]
-    if len(cf) == 1 and len(ins) == 1 and src_its:
-        sb0 = src_its[0][0]
-        nxt = [(b, t) for b, t in body.calls(lambda c: c['path'] == 'core::iter::Iterator::next') if b in body.reachable_after(sb0) and cf[0][0] in body.reachable_after(b) and b in body.reachable_after(cf[0][0])]
-        for nb, nt in nxt:
-            # from the loop body entry, can we come back to `next` avoiding both clone sites?
-            for succ in body.normal_succ(nb):
-                pass
-            esc = body.reachable_after(nb, avoid=[cf[0][0], ins[0][0]])
-            if nb in esc:
-                r.viol('C10a', 'source-archetype-skipped', f.loc(nt['ln']), 'an iteration over the source archetypes can finish without cloning that archetype into the destination (neither clone_from nor clone+insert): identifier_map stays incomplete and lookups later point into the source world')
-    if len(cf) != 1 or len(cl_) != 1 or len(ins) != 1:
-        r.viol('C10a', 'source-loop-shape', f.loc(), 'each source archetype must be cloned into the matching table or cloned and inserted (found clone_from=%d clone=%d insert=%d)' % (len(cf), len(cl_), len(ins)))
-    else:
-        if not body.dominates(cl_[0][0], ins[0][0]):
-            r.viol('C10a', 'clone-not-inserted', f.loc(), 'a freshly cloned archetype is not inserted into the destination')
-        for xb, xt in (cf[0], ins[0]):
-            if not any(body.dominates(xb, mb) or body.dominates(mb, xb) for mb, mt in mins):
-                r.viol('C10a', 'identifier-map-incomplete', f.loc(xt['ln']), 'a cloned archetype is not recorded in identifier_map: slots pointing at it cannot be remapped')
+    if not n_src or not n_dst:
+        once('clear-loop-source' if not n_dst else 'source-loop-shape', None, 'could not find the %s loop' % ('clearing' if not n_dst else 'source'))
     return r
 
 
